@@ -309,3 +309,18 @@ Proof. exact atr_bar_stream_pow2. Qed.
 Theorem C14_kc_bar_stream_pow2_binary64 : forall k bs bs' s s', rel_kc k s s' -> Forall2 (sbar k) bs bs' -> kcb_run_ok k s bs ->
   Forall2 (Forall2 (scaled k)) (kc_bar_outs FOps s bs) (kc_bar_outs FOps s' bs').
 Proof. exact kc_bar_stream_pow2. Qed.
+
+(* ... and Minimum over whole streams, with NO side condition on the values: it only compares and copies, and `<` on floats does not
+   change when both operands are multiplied by 2^k or are both the +infinity of an unused slot (sinf = scaled, or both +infinity);
+   the length hypothesis says that the unscaled run does not fail (C12) *)
+From TA Require Import Proofs.FloatScaleMin.
+Theorem C14_ltb_pow2_binary64 : forall k a b a' b', sinf k a a' -> sinf k b b' -> (a' <? b')%float = (a <? b)%float.
+Proof. exact ltb_sinf. Qed.
+Theorem C14_min_stream_pow2_binary64 : forall k xs xs' s s', rel_min k s s' -> Forall2 (sinf k) xs xs' ->
+  length (res_outs (min_next FOps) s xs) = length xs ->
+  Forall2 (sinf k) (res_outs (min_next FOps) s xs) (res_outs (min_next FOps) s' xs').
+Proof. exact min_stream_pow2. Qed.
+Theorem C14_min_pow2_binary64 : forall k p s xs xs', min_new FOps p = Ok s -> Forall2 (scaled k) xs xs' ->
+  length (res_outs (min_next FOps) s xs) = length xs ->
+  Forall2 (sinf k) (res_outs (min_next FOps) s xs) (res_outs (min_next FOps) s xs').
+Proof. exact min_pow2_covariant. Qed.
